@@ -85,6 +85,13 @@ func c19Cases(tier string) []c19Case {
 			}
 		}
 	}
+	// large fees, an almost free relay, shares that are repeating decimals: a refund computed through rounded
+	// decimals may exceed the fee paid by a few units
+	for _, sz := range []int{2, 3, 5} {
+		for _, d := range []uint64{18, 6} {
+			out = append(out, c19Case{sz, 3, 3, 0, d, []int64{10, 10, 10}, "minter", "ethereum", -1, false, 0, false})
+		}
+	}
 	// two withdrawals with different fees in one hub transaction
 	for _, d := range []uint64{6, 18} {
 		out = append(out, c19Case{2, 1, 1, 0, d, []int64{10, 10, 10}, "hub", "ethereum", -1, false, 0, true})
@@ -179,6 +186,13 @@ func c19Run(in *hub.Instance, cs c19Case) (res c19Res) {
 			if i == 0 {
 				fees[i] = new(big.Int).Mul(unit, big.NewInt(1000))
 			}
+		case 3:
+			// thousands of whole tokens, in the ratio 2 : 1 : 1 ... (shares 2/3, 1/3: one of them is a repeating decimal
+			// that rounds up at the 18th digit)
+			fees[i] = new(big.Int).Mul(pow10(18), big.NewInt(1000))
+			if i == 0 {
+				fees[i] = new(big.Int).Mul(pow10(18), big.NewInt(2000))
+			}
 		default:
 			fees[i] = big.NewInt(0)
 			if i%2 == 0 {
@@ -189,6 +203,9 @@ func c19Run(in *hub.Instance, cs c19Case) (res c19Res) {
 	amount := new(big.Int).Mul(unit, big.NewInt(100000))
 	if cs.Tiny > 0 {
 		amount = big.NewInt(cs.Tiny)
+	}
+	if cs.Spread == 3 {
+		amount = new(big.Int).Mul(pow10(18), big.NewInt(1_000_000))
 	}
 	if cs.Shift {
 		// a Minter signer set is published for the genesis stake
@@ -270,6 +287,8 @@ func c19Run(in *hub.Instance, cs c19Case) (res c19Res) {
 	in.Hub.IterateUnbatchedSendToExternals(in.Ctx(), "minter", func(s *mhubtypes.SendToExternal) bool { before[s.Id] = true; return false })
 	feePaid := sdk.ZeroInt()
 	switch cs.FeePaid {
+	case 3:
+		feePaid = sdk.NewInt(1) // an almost free relay: the whole fee is surplus
 	case 1:
 		feePaid = sdk.NewIntFromBigInt(new(big.Int).Mul(unit, big.NewInt(2)))
 	case 2:
